@@ -88,4 +88,10 @@ class FE0(float, enum.Enum):
     HALF = 0.5
 
 
-ENUMS = {c.__name__: c for c in (IntE, StrE, FloatE, MixedE, NoneE, BoolE, IE, SE, BytesE, IE0, SE0, FE0)}
+class TupE(enum.Enum):
+    PAIR = (1, 2)
+    EMPTY = ()
+    NAMED = ('a', 1)
+
+
+ENUMS = {c.__name__: c for c in (IntE, StrE, FloatE, MixedE, NoneE, BoolE, IE, SE, BytesE, IE0, SE0, FE0, TupE)}
